@@ -23,8 +23,8 @@ TAG_SC = "C18/scenario"
 TAG_SWARM = "C18/swarm"
 
 TIERS = {
-    "quick": dict(enum_scenarios=12, stdio_sites=6, swarm=400, real_lli=12),
-    "thorough": dict(enum_scenarios=120, stdio_sites=40, swarm=80000, real_lli=300),
+    "quick": dict(enum_scenarios=12, stdio_sites=6, swarm=400, real_lli=12, crash=120),
+    "thorough": dict(enum_scenarios=120, stdio_sites=40, swarm=80000, real_lli=300, crash=8000),
 }
 
 ESC = b"\x1b"
@@ -249,17 +249,27 @@ def expected_output_path(sc):
 
 
 # ---------------------------------------------------------------- running --
-def exec_scenario(sc, wd, plan=None, keep=False, real_lli=False):
-    fresh_dir(wd)
-    write_files(wd, sc["files"])
-    for d in sc["pre_dirs"]:
-        os.makedirs(os.path.join(wd, d), exist_ok=True)
-    if sc.get("pre_files") and not sc.get("_no_pre_files"):
-        write_files(wd, sc["pre_files"])
-    for link, target in sc.get("pre_symlinks", {}).items():
-        p = os.path.join(wd, link)
-        os.makedirs(os.path.dirname(p), exist_ok=True)
-        os.symlink(target, p)
+def exec_scenario(sc, wd, plan=None, keep=False, real_lli=False, restart=False):
+    if restart:
+        # a restart after a crash: the directory is left exactly as the dead
+        # process left it (only the simulator's own files are reset)
+        for junk in ("trace.txt", "marker"):
+            try:
+                os.remove(os.path.join(wd, junk))
+            except OSError:
+                pass
+        shutil.rmtree(os.path.join(wd, "bin"), ignore_errors=True)
+    else:
+        fresh_dir(wd)
+        write_files(wd, sc["files"])
+        for d in sc["pre_dirs"]:
+            os.makedirs(os.path.join(wd, d), exist_ok=True)
+        if sc.get("pre_files") and not sc.get("_no_pre_files"):
+            write_files(wd, sc["pre_files"])
+        for link, target in sc.get("pre_symlinks", {}).items():
+            p = os.path.join(wd, link)
+            os.makedirs(os.path.dirname(p), exist_ok=True)
+            os.symlink(target, p)
     bindir = os.path.join(wd, "bin")
     os.makedirs(bindir)
     for name in sorted(set(sc["stubs"])):
@@ -740,6 +750,59 @@ def _fs_variant_job(args):
     return {"variant": variant, "sub": sub, "status": obs["status"], "violations": viol}
 
 
+def _crash_restart_job(args):
+    """Crash (SIGKILL) at an arbitrary intercepted call - for artefact writes
+    after a prefix of the data reached the file - then restart the same command
+    in the directory the dead process left behind. Only what is on disk
+    survives; the restarted run must be judged like any fault-free run and must
+    leave exactly the artefacts of a run into a fresh directory."""
+    seed, i = args
+    rng = rng_for(seed, "C18/crash", i)
+    sub = rng.choice(["emit", "emit", "run", "build"])
+    sc = make_scenario(rng, sub, rng.choice(["valid_multi", "valid_multi", "valid_single", "with_core"]),
+                       {"out_dir": rng.choice(["fresh", "nested", "existing"]), "script": {"read": "all", "exit": 0}, "order": "parent_first",
+                        "config": "none", "cell": (0, 0, 0)})
+    sc["name"] = "crash%d:%s:%s" % (i, sc["sub"], sc["input_kind"])
+    root = os.path.join(work_root(), "C18", "x%d" % i)
+    census = run_census(sc, os.path.join(root, "census"))
+    calls, _ = parse_trace(census["trace"])
+    sites = [s_ for s_ in sites_of(calls) if s_["kind"] in ("fwrite", "open_w", "mkdir", "pwrite", "spawn", "wait", "out")]
+    res = {"i": i, "runs": 2, "violations": [], "fired": {}, "configured": {}, "triples": set(), "trace_hashes": set(), "branches": set()}
+    if not sites:
+        shutil.rmtree(root, ignore_errors=True)
+        res["triples"] = []
+        res["trace_hashes"] = []
+        res["branches"] = []
+        return res
+    weights = {"fwrite": 8, "open_w": 4, "mkdir": 3, "pwrite": 2, "spawn": 1, "wait": 1, "out": 1}
+    pool = [s_ for s_ in sites for _ in range(weights.get(s_["kind"], 1))]
+    site = rng.choice(pool)
+    torn = rng.randrange(1, max(2, site.get("size", 2))) if site["kind"] in ("fwrite", "pwrite") and rng.random() < 0.8 else 0
+    plan = ["%s:%d:crash:%d" % (site["cls"], site["idx"], torn)]
+    res["configured"]["crash"] = 1
+    wd = os.path.join(root, "run")
+    dead = exec_scenario(sc, wd, plan=plan, keep=True)
+    _c, fired = parse_trace(dead["trace"])
+    if fired:
+        res["fired"]["crash"] = 1
+        res["triples"].add((sc["sub"] + "/" + sc["input_kind"], site["kind"], "crash_torn" if torn else "crash"))
+        if dead["sig"] != 9:
+            res["violations"].append({"class": "harness_crash_not_delivered", "detail": dead["status"], "scenario": sc_json(sc), "plan": plan, "fault": "crash"})
+        again = exec_scenario(sc, wd, restart=True)
+        res["runs"] += 1
+        v, calls2, _ = judge(sc, again, census, "restart_after_crash", None)
+        res["branches"].add("restart:" + model_expect_zero(sc, calls2)[1])
+        res["trace_hashes"].add(sha("\n".join(dead["trace"])))
+        for cls, d in v:
+            res["violations"].append({"class": cls, "detail": "after a crash at %s (torn=%d) and a restart: %s" % (plan[0], torn, d),
+                                      "scenario": sc_json(sc), "plan": plan, "fault": "crash_restart"})
+    shutil.rmtree(root, ignore_errors=True)
+    res["triples"] = sorted(res["triples"])
+    res["trace_hashes"] = sorted(res["trace_hashes"])
+    res["branches"] = sorted(res["branches"])
+    return res
+
+
 def _script_grid_job(args):
     """Every backend behaviour x --silent x subcommand x forced order."""
     seed, idx = args
@@ -870,6 +933,8 @@ def minimise(v):
         return any(c == cls for c, _ in vv)
 
     plan = list(v["plan"])
+    if v.get("fault") == "crash_restart":
+        return v, False
     try:
         if not holds(sc, plan):
             shutil.rmtree(root, ignore_errors=True)
@@ -991,6 +1056,10 @@ def run(tier, seed):
         swarm_done += 1
         if budget and time.time() - t0 > budget:
             break
+    crash_done = 0
+    for res in parallel_imap(_crash_restart_job, ((seed, i) for i in range(cfg["crash"])), chunksize=2):
+        absorb(res)
+        crash_done += 1
     lli_runs = 0
     for res in parallel_map(_real_lli_job, [(seed, i) for i in range(cfg["real_lli"])]):
         runs += res["runs"]
@@ -1024,6 +1093,7 @@ def run(tier, seed):
                                       "dimensions": "subcommand {run, build} x --silent x %d backend scripts x forced order" % len(SCRIPTS)},
         "real_filesystem_variants": fs_cells,
         "swarm_runs": swarm_done,
+        "crash_restart_runs": crash_done,
         "real_lli_cross_checks": lli_runs,
         "fault_kinds_configured": configured,
         "fault_kinds_fired": fired,
@@ -1053,7 +1123,12 @@ def replay(record):
     plan = record["plan"]
     root = os.path.join(work_root(), "C18", "replay-%d" % os.getpid())
     census = run_census(sc, os.path.join(root, "c"))
-    obs = exec_scenario(sc, os.path.join(root, "r"), plan=plan) if plan else census
+    if record.get("fault") == "crash_restart":
+        exec_scenario(sc, os.path.join(root, "r"), plan=plan, keep=True)
+        obs = exec_scenario(sc, os.path.join(root, "r"), restart=True)
+        plan = []
+    else:
+        obs = exec_scenario(sc, os.path.join(root, "r"), plan=plan) if plan else census
     benign = bool(plan) and all((":eintr:" in p or ":short:" in p) for p in plan)
     if any(":short:" in p for p in plan) and any(":errno:" in p for p in plan):
         benign = False
